@@ -88,10 +88,10 @@ macro_rules! mutnum_ops {
             (2, true) => $v.try_extend_from_slice_copy(vals).expect("try_extend_from_slice_copy"),
             (3, false) => $v.extend_from_slice_clone(vals),
             (3, true) => $v.try_extend_from_slice_clone(vals).expect("try_extend_from_slice_clone"),
-            (4, false) => $v.extend_from_within_copy(a..b),
-            (4, true) => $v.try_extend_from_within_copy(a..b).expect("try_extend_from_within_copy"),
-            (5, false) => $v.extend_from_within_clone(a..b),
-            (5, true) => $v.try_extend_from_within_clone(a..b).expect("try_extend_from_within_clone"),
+            (4, false) => $v.extend_from_within_copy(form_range(a, b, $v.len())),
+            (4, true) => $v.try_extend_from_within_copy(form_range(a, b, $v.len())).expect("try_extend_from_within_copy"),
+            (5, false) => $v.extend_from_within_clone(form_range(a, b, $v.len())),
+            (5, true) => $v.try_extend_from_within_clone(form_range(a, b, $v.len())).expect("try_extend_from_within_clone"),
             (6, _) => $v.extend(Hinted { inner: vals.to_vec().into_iter(), cap: $hint, lie: None }),
             (7, false) => $v.resize(a, vals[0]),
             (7, true) => $v.try_resize(a, vals[0]).expect("try_resize"),
